@@ -43,12 +43,16 @@ CLAIMED = {
  "C16": dict(engine="e5-loadfiles", design="4/C16",
    text="For each dialect every legal instruction form x every field pair for M in 3..9 and boundary fields for M in {80,8000,8192}, plus all 2..3-instruction warriors with every entry point, are printed with Warrior.LoadCode() and read back by an independent pMARS-listing reader; instructions (fields mod M) and entry point must match.",
    technique="exhaustive enumeration of warriors, print/read-back against an independent listing reader"),
+ "C13": dict(engine="e3-apiseq", design="4/C13",
+   text="Breadth-first search to closure over the reachable states of the real simulator (M=4, P=2, 3 cycles, <=3 warriors of 3 kinds) under AddWarrior, SpawnWarrior(i in -1..n+1, off in {0,M-1,M,2M+3}), RunCycle, Run, Reset; after every call the result and the full query battery (run twice) are compared with a reference state machine, every call runs under a non-return watchdog, and in every distinct state Reset+respawn is compared with a fresh simulator over all continuation sequences up to a bound.",
+   technique="explicit-state BFS over the real transition function with state hashing + lock-step reference state machine + reset/fresh differential"),
 }
 
 PENDING = {
 }
 
 ENGINES = [
+ {"name": "e3-apiseq", "path": "/verif/mc/engines/e3", "serves_properties": ["C13"], "kind_free_text": "explicit-state breadth-first search over API call sequences on the real simulator"},
  {"name": "e5-loadfiles", "path": "/verif/mc/engines/e5", "serves_properties": ["C09", "C10", "C16"], "kind_free_text": "canonical load-file printer, layout perturbation and corruption enumerators, listing reader"},
  {"name": "e4-asm", "path": "/verif/mc/engines/e4", "serves_properties": ["C03", "C06", "C07", "C08"], "kind_free_text": "grammar-directed exhaustive generation of assembler inputs with by-construction meaning"},
  {"name": "e2-battles", "path": "/verif/mc/engines/e2", "serves_properties": ["C02", "C12", "C04", "C15"], "kind_free_text": "explicit-state enumeration of whole battles against the reference scheduler; placement differential; configuration boundary product"},
